@@ -102,20 +102,39 @@ def r_real_bo():
     return tree, twin(x='{class: real, size: 32}')
 
 
-@probe('v2-struct-fields-null-or-absent-crash', 'w_fields_null',
-       'a barectf 2 structure field type with `fields: null` (allowed by schemas/config/2/field-type.yaml), or a header structure '
-       'type without `fields`, makes the converter raise AttributeError / KeyError (Python traceback instead of a configuration '
-       'or a configuration error); the barectf 3 twin (`members` absent) loads',
-       'config_parse_v2.py _conv_struct_ft_node / _conv_dst_node / _conv_meta_node: read `fields` with `.get(\'fields\')` and treat None '
-       'as no member (or make `fields` a required non-null mapping in schemas/config/2)')
-def p_fields_null():
+TWIN_FIELDS_NULL = G.V3_HEADER + '''trace:
+  type:
+    trace-byte-order: le
+    $features: {magic-field-type: false, uuid-field-type: false, data-stream-type-id-field-type: false}
+    data-stream-types:
+      s:
+        $features:
+          packet:
+            total-size-field-type: {class: uint, size: 32}
+            content-size-field-type: {class: uint, size: 32}
+            beginning-timestamp-field-type: false
+            end-timestamp-field-type: false
+            discarded-event-records-counter-snapshot-field-type: false
+          event-record: {type-id-field-type: {class: uint, size: 8}, timestamp-field-type: false}
+        event-record-types:
+          e:
+            payload-field-type: {class: struct}
+'''
+
+
+@regression('v2-struct-fields-null-or-absent-crash (fields: null)', 'w_fields_null',
+            '/repo 616725c (`fields: null` = a structure without members)')
+def r_fields_null():
     tree = base(payload=OD([('class', 'struct'), ('fields', None)]),
                 eh=OD([('class', 'struct'), ('fields', OD([('id', _int(8))]))]))
+    return tree, TWIN_FIELDS_NULL
 
-    def check(run, text):
-        r2 = run(text)
-        return r2[0] == 'crash', {'v2_outcome': r2[0], 'v2_message': r2[1] if r2[0] != 'ok' else None}
-    return tree, None, check
+
+@regression('v2-struct-fields-null-or-absent-crash (header structures without fields)', 'w_header_no_fields',
+            '/repo 616725c (a header structure without `fields` = no feature)')
+def r_header_no_fields():
+    tree = base(ph=OD([('class', 'struct')]), eh=OD([('class', 'struct')]))
+    return tree, twin()
 
 
 @probe('v2-packet-seq-num-dropped', 'w_seq_num',
@@ -228,19 +247,12 @@ def refuted_classes(tree):
         allft = []
         _fts(meta.get('streams'), allft)
         _fts(tr.get('packet-header-type'), allft)
-        for n in allft:
-            if n.get('class') in ('struct', 'structure') and 'fields' in n and n['fields'] is None:
-                out.add('v2-struct-fields-null-or-absent-crash')
         ph = tr.get('packet-header-type')
-        if isinstance(ph, OD) and 'fields' not in ph:
-            out.add('v2-struct-fields-null-or-absent-crash')
         if set(_fields(ph)) - {'magic', 'uuid', 'stream_id'}:
             out.add('v2-header-members-dropped')
         consumed = []
         for s in meta['streams'].values():
             eh = s.get('event-header-type')
-            if isinstance(eh, OD) and 'fields' not in eh:
-                out.add('v2-struct-fields-null-or-absent-crash')
             if set(_fields(eh)) - {'id', 'timestamp'}:
                 out.add('v2-header-members-dropped')
             pc = _fields(s.get('packet-context-type'))
